@@ -1522,7 +1522,13 @@ def _encode_host(host: str, validate_host: bool) -> str:
             ) from None
         return host
 
-    return _idna_encode(host)
+    host = _idna_encode(host)
+    # The stdlib "idna" codec that _idna_encode() falls back to is lenient and
+    # lets delimiters through; reject them like for ASCII host names.
+    if validate_host and (invalid := NOT_REG_NAME.search(host)):
+        value, pos = invalid.group(), invalid.start()
+        raise ValueError(f"Host {host!r} cannot contain {value!r} (at position {pos})")
+    return host
 
 
 @rewrite_module
